@@ -20,7 +20,9 @@ ASSUMPTIONS = [
 
 POLICIES = [{}, {"rows": 1}, {"rows": 2}, {"cut": 1}, {"cut": 2}, {"rows": 3, "cut": 1}, {"stop": False}, {"stop": False, "cut": 1},
             # RFC 3416 4.2.3: the cut may reach into the first repetition (>= 1 binding is kept)
-            {"cut": 1, "deep": True}, {"cut": 2, "deep": True, "rows": 1}, {"cut": 3, "deep": True, "rows": 2}, {"cut": 1, "deep": True, "rows": 1, "stop": False}]
+            {"cut": 1, "deep": True}, {"cut": 2, "deep": True, "rows": 1}, {"cut": 3, "deep": True, "rows": 2}, {"cut": 1, "deep": True, "rows": 1, "stop": False},
+            # a message-size limit: at most n bindings per response, the answers to completion requests included
+            {"maxvb": 1}, {"maxvb": 2}, {"maxvb": 3}, {"maxvb": 4, "stop": False}, {"maxvb": 5}]
 
 CORPUS = [
     # A2: adjacent subtrees of different sizes, overrunning column duplicates an OID
@@ -48,8 +50,12 @@ def _cases(ctx):
         v, lvl = protos[i % 4] if i % 4 == 0 or i % 7 == 0 else protos[0]
         yield db, roots, ctx.rng.choice([1, 2, 3, 4, 10, 25]), ctx.rng.choice(POLICIES), v, lvl, "random"
     # big tables: the shared walk loop's bookkeeping after thousands of yields
-    for cols, rows, size in [(2, 5100 + ctx.rng.randrange(200), 25)] + ([] if ctx.quick else [(3, 7000 + ctx.rng.randrange(500), 10), (2, 16500, 50)]):
-        db, roots = W.large_case(cols, rows)
+    # (uneven columns: a later column ends while an earlier one is still far from its end)
+    r = ctx.rng.randrange
+    for shape, size in [([5100 + r(200)] * 2, 25), ([1500 + r(100), 600 + r(100)], 25), ([400 + r(50), 1300 + r(50), 300 + r(50)], 10)] + (
+        [] if ctx.quick else [([7000 + r(500)] * 3, 10), ([16500] * 2, 50), ([12000, 3000], 20)]
+    ):
+        db, roots = W.large_case(len(shape), shape)
         yield db, roots, size, {}, "v2c", "noauth", "large"
 
 
@@ -58,7 +64,7 @@ def run(ctx):
     reqs, impls = [], []
     for db, roots, size, pol, version, level, origin in _cases(ctx):
         spec = {"db": db, "policy": pol}
-        walk, agent = W.impl_walk(spec, roots, "bulk", size=size, version=version, level=level, budget=(len(db) + 8) * (len(roots) if pol.get("deep") else 1))
+        walk, agent = W.impl_walk(spec, roots, "bulk", size=size, version=version, level=level, budget=(len(db) + 8) * (len(roots) if pol.get("deep") or pol.get("maxvb") else 1))
         nb = len(W.below(db, roots))
         res.count(f"origin:{origin}")
         res.count(f"proto:{version}/{level}")
@@ -68,9 +74,9 @@ def run(ctx):
         case = {"db": db, "roots": roots, "size": size, "policy": pol, "version": version, "level": level}
         shown = walk
         if origin == "large":
-            case = {"large": [len(roots), len(db) // len(roots)], "roots": roots, "size": size, "policy": pol, "version": version, "level": level}
+            case = {"large": [len(roots), [sum(1 for o, _ in db if o[:-1] == rt) for rt in roots]], "roots": roots, "size": size, "policy": pol, "version": version, "level": level}
             shown = W.summary(walk)
-        bad = W.oracle_exact(db, roots, walk, per_binding=bool(pol.get("deep")))
+        bad = W.oracle_exact(db, roots, walk, per_binding=bool(pol.get("deep") or pol.get("maxvb")))
         if bad and walk["outcome"] == ["error", ["authError"]] and agent.raw_log and auth_len127(agent.raw_log[-1][1]):
             res.count("hit:C10-len127")
             res.violate("e2e-bulk", case, "walk completes", walk, bad, {"kind": "auth-reject-len127"})
@@ -85,11 +91,11 @@ def run(ctx):
                 bad = "bulk walk and GETNEXT walk return different instance sets"
         if bad:
             res.violate("e2e-bulk", case, "exactly the instances below the roots, as the GETNEXT walk", shown, bad, _signature(roots, bad))
-        if origin == "large" and (ctx.quick or len(db) > 12000):
+        if origin == "large" and len(db) > (3000 if ctx.quick else 12000):
             res.evaluations += 1  # oracle only (the list-based model needs ~15 s per 10^4 instances)
             res.count("large:oracle-only")
             continue
-        reqs.append(W.model_request(spec, roots, "bulk", size=size, fuel=(len(db) + 8) * (len(roots) if pol.get("deep") else 1)))
+        reqs.append(W.model_request(spec, roots, "bulk", size=size, fuel=(len(db) + 8) * (len(roots) if pol.get("deep") or pol.get("maxvb") else 1)))
         impls.append((case, walk, nb > 0 or len(db) > 0))
     if ctx.driver_ok:
         for (case, walk, nontrivial), ans in zip(impls, run_driver(reqs)):
@@ -109,13 +115,20 @@ def _signature(roots, bad):
 
 
 def search(ctx, res):
-    for i, (db, roots) in enumerate(W.small_scope()):
-        for size in (1, 2, 3):
-            walk, _ = W.impl_walk({"db": db}, roots, "bulk", size=size, budget=len(db) + 8)
-            bad = W.oracle_exact(db, roots, walk)
-            if bad:
-                res.violate("e2e-bulk", {"db": db, "roots": roots, "size": size, "policy": {}, "version": "v2c", "level": "noauth"}, "exact bulk walk", walk, bad, _signature(roots, bad))
-                return
+    """called when a tie broke and the sampled run found nothing: the whole small scope, first with
+    the agent answering in full, then under the truncation policies (several roots only)"""
+    for pols, sizes, min_roots in (([{}], (1, 2, 3), 1), ([{"maxvb": 2}, {"maxvb": 1}, {"cut": 1, "deep": True}, {"rows": 1}, {"cut": 1}], (2, 3), 2)):
+        for db, roots in W.small_scope():
+            if len(roots) < min_roots or len(db) < min_roots:
+                continue
+            for pol in pols:
+                deep = bool(pol.get("deep") or pol.get("maxvb"))
+                for size in sizes:
+                    walk, _ = W.impl_walk({"db": db, "policy": pol}, roots, "bulk", size=size, budget=(len(db) + 8) * (len(roots) if deep else 1))
+                    bad = W.oracle_exact(db, roots, walk, per_binding=deep)
+                    if bad:
+                        res.violate("e2e-bulk", {"db": db, "roots": roots, "size": size, "policy": pol, "version": "v2c", "level": "noauth"}, "exact bulk walk", walk, bad, _signature(roots, bad))
+                        return
 
 
 def replay(ctx, payload):
@@ -123,7 +136,7 @@ def replay(ctx, payload):
     if "large" in case:
         case["db"] = W.large_case(*case["large"])[0]
     walk, _ = W.impl_walk({"db": case["db"], "policy": case.get("policy", {})}, case["roots"], "bulk", size=case["size"], version=case.get("version", "v2c"), level=case.get("level", "noauth"), budget=len(case["db"]) + 8)
-    bad = W.oracle_exact(case["db"], case["roots"], walk, per_binding=bool((case.get("policy") or {}).get("deep")))
+    bad = W.oracle_exact(case["db"], case["roots"], walk, per_binding=bool((case.get("policy") or {}).get("deep") or (case.get("policy") or {}).get("maxvb")))
     print("trace", W.summary(walk) if "large" in case else walk)
     print("oracle:", bad or "ok")
     return 1 if bad else 0
